@@ -186,6 +186,9 @@ class Emitter:
             self.tag_prefixes = self.DEFAULT_TAG_PREFIXES.copy()
             if self.event.tags:
                 handles = sorted(self.event.tags.keys())
+                for prefix, handle in self.DEFAULT_TAG_PREFIXES.items():
+                    if handle in self.event.tags:
+                        del self.tag_prefixes[prefix]
                 for handle in handles:
                     prefix = self.event.tags[handle]
                     self.tag_prefixes[prefix] = handle
